@@ -681,6 +681,10 @@ type handler struct {
 	stopFn         context.CancelFunc
 	stopped        chan struct{}
 	routersCloseCh chan struct{}
+
+	// the publisher as it was before decorateHandlerPublisher: put back when the subscriber cannot be
+	// decorated, so that a retried RunHandlers does not decorate the publisher a second time
+	undecoratedPublisher Publisher
 }
 
 func (h *handler) run(ctx context.Context, middlewares []middleware) {
@@ -782,6 +786,7 @@ func (r *Router) decorateHandlerPublisher(h *handler) error {
 			return errors.Wrap(err, "could not apply publisher decorator")
 		}
 	}
+	h.undecoratedPublisher = h.publisher
 	r.handlers[h.name].publisher = pub
 	return nil
 }
@@ -801,12 +806,14 @@ func (r *Router) decorateHandlerSubscriber(h *handler) error {
 	}
 	sub, err = MessageTransformSubscriberDecorator(messageTransform)(sub)
 	if err != nil {
+		h.publisher = h.undecoratedPublisher
 		return errors.Wrapf(err, "cannot wrap subscriber with context decorator")
 	}
 
 	for _, decorator := range r.subscriberDecorators {
 		sub, err = decorator(sub)
 		if err != nil {
+			h.publisher = h.undecoratedPublisher
 			return errors.Wrap(err, "could not apply subscriber decorator")
 		}
 	}
